@@ -465,23 +465,54 @@ class Extracted:
         return self
 
     def replace_macro(self, name, repl, rule='X4'):
-        """replace every invocation `name!(...)` (optionally path-qualified `a::name!`) by `repl`"""
+        """replace every invocation `name!(fmt, args..)` (optionally path-qualified) by `repl`; the message TEXT is dropped but every
+        argument expression after the format string is still evaluated (`{ let _ = &(arg); .. repl }`): code inside error messages can
+        panic too.  `repl` may start with `return ` (for bail!)."""
         t = self.text
         mask = code_mask(t)
         pat = re.compile(r'\b(?:[a-z_]+::)?%s!\s*\(' % re.escape(name))
-        out, i, n = [], 0, 0
+        out, i, n, kept = [], 0, 0, 0
         for m in pat.finditer(t):
             if m.start() < i or not mask[m.start()]:
                 continue
             close = match_delim(t, mask, m.end() - 1)
+            inner, imask = t[m.end():close], mask[m.end():close]
+            parts, depth, last = [], 0, 0
+            for idx, ch in enumerate(inner):
+                if not imask[idx]:
+                    continue
+                if ch in OPEN:
+                    depth += 1
+                elif ch in CLOSE:
+                    depth -= 1
+                elif ch == ',' and depth == 0:
+                    parts.append(inner[last:idx])
+                    last = idx + 1
+            parts.append(inner[last:])
+            args = []
+            for a in parts[1:]:
+                a = a.strip()
+                if not a:
+                    continue
+                mm = re.match(r'^[A-Za-z_][A-Za-z0-9_]*\s*=\s*(?!=)(.*)$', a, re.S)     # named argument `x = expr`
+                if mm:
+                    a = mm.group(1).strip()
+                if not re.fullmatch(r'[A-Za-z_][A-Za-z0-9_.]*', a):                       # plain variables / field paths cannot panic
+                    args.append(a)
             out.append(t[i:m.start()])
-            out.append(repl)
+            if args:
+                kept += len(args)
+                ret = 'return ' if repl.startswith('return ') else ''
+                core = repl[len(ret):]
+                out.append('%s{ %s %s }' % (ret, ' '.join('let _ = &(%s);' % a for a in args), core))
+            else:
+                out.append(repl)
             i = close + 1
             n += 1
         out.append(t[i:])
         if n:
             self.text = ''.join(out)
-            self.log(rule, 'replaced %d `%s!(..)` by `%s` (message text dropped)' % (n, name, repl))
+            self.log(rule, 'replaced %d `%s!(..)` by `%s` (message text dropped; %d argument expression(s) kept evaluated)' % (n, name, repl, kept))
         return self
 
     # X5 / X9 generic logged rewrite --------------------------------------------------------------
